@@ -20,7 +20,7 @@ func (c08) Rule() string {
 func (c08) Assumptions() []string {
 	return []string{"two Primaries / several unnamed candidates without a Primary: the statements are silent, any member of the candidate set is accepted"}
 }
-func (c08) NumCases(tier string) int      { return tierN(tier, 3000, 60000) }
+func (c08) NumCases(tier string) int      { return tierN(tier, 3000, 200000) }
 func (c08) MinNontrivial(tier string) int { return tierN(tier, 500, 5000) }
 
 func (p c08) Run(c *core.Ctx) {
